@@ -3,8 +3,8 @@
 // (an id 1..3 with a per-key length; std::hash<Key> has only two values, so keys 1 and 3 share a bucket) and the value carries
 // its own accounted size. Every operation of a sequence is applied to the map and to the reference; after every step get()
 // results, memoryUsed(), memLimit(), entries() and the complete traversal order (most recently used first) are compared.
-// Symbolic: key lengths, value sizes (any 64-bit value: huge ones overflow the accounting), values, TTLs (any int), clock
-// advances, capacities. Case-split: opcode and key of every operation.
+// Case-split: opcode and key of every operation. Symbolic: the values; per entry (see Params) the TTLs / clock advances, or the key
+// lengths / value sizes (any 64-bit value: huge ones overflow the accounting) / capacities.
 // Reference semantics where the header is silent: add() always forgets the previous value of the key, even when the new one is
 // rejected (as tests/testClpMap.cc testNegativeTtl demands); victims are taken strictly from the LRU end, expired or not.
 #include "squid.h"
@@ -55,13 +55,15 @@ pair<bool, size_t> _Prime_rehash_policy::_M_need_rehash(size_t nBkt, size_t nElt
 
 // ---------------------------------------------------------------- reference model: a recency-ordered array, [0] = most recently used
 static const unsigned NKEYS = 3;
-struct RefEntry { uint8_t id; int v; __int128 expires; uint64_t mem; };
+static const uint64_t OVERHEAD = sizeof(Map::Entry) + sizeof(std::pair<const Key, Map::EntriesIterator>); // what ClpMap accounts per entry besides key and value
+static const time_t TMAX = std::numeric_limits<time_t>::max();
+struct RefEntry { uint8_t id; int v; time_t expires; uint64_t mem; };
 struct Ref {
     RefEntry e[NKEYS]; unsigned n = 0;
     uint64_t limit = 0, used = 0;
     void removeAt(unsigned i) { used -= e[i].mem; for (unsigned j = i; j + 1 < n; ++j) e[j] = e[j + 1]; --n; }
     // the entry of a key if it is still fresh (then it becomes the most recently used); an expired one is dropped
-    RefEntry *find(uint8_t id, __int128 now) {
+    RefEntry *find(uint8_t id, time_t now) {
         for (unsigned i = 0; i < n; ++i) if (e[i].id == id) {
             if (e[i].expires < now) { removeAt(i); vf_reach("expired"); return nullptr; }
             const RefEntry x = e[i]; for (unsigned j = i; j > 0; --j) e[j] = e[j - 1]; e[0] = x;
@@ -69,29 +71,24 @@ struct Ref {
         }
         return nullptr;
     }
-    void del(uint8_t id, __int128 now) { if (find(id, now)) removeAt(0); }
-    bool add(uint8_t id, uint32_t keyLen, int v, uint64_t size, int ttl, __int128 now) {
+    void del(uint8_t id, time_t now) { if (find(id, now)) removeAt(0); }
+    bool add(uint8_t id, uint32_t keyLen, int v, uint64_t size, int ttl, time_t now) {
         if (limit == 0) return false;
-        del(id, now);
+        del(id, now);                                  // the previous value of the key is forgotten even if the new one is rejected
         if (ttl < 0) return false;
-        const __int128 need = (__int128)keyLen + sizeof(Map::Entry) + size + sizeof(std::pair<const Key, Map::EntriesIterator>);
-        if (need > (__int128)UINT64_MAX || need > (__int128)limit) return false;
-        while (limit - used < (uint64_t)need) { removeAt(n - 1); vf_reach("purged-for-add"); } // only least recently used entries make room
+        const uint64_t fixed = keyLen + OVERHEAD;      // < 2^33
+        if (size > UINT64_MAX - fixed) return false;   // the accounted size does not fit 64 bits
+        const uint64_t need = fixed + size;
+        if (need > limit) return false;
+        while (limit - used < need) { removeAt(n - 1); vf_reach("purged-for-add"); } // only least recently used entries make room
         for (unsigned j = n; j > 0; --j) e[j] = e[j - 1];
         ++n;
-        const __int128 tmax = std::numeric_limits<time_t>::max();
-        e[0] = RefEntry{id, v, now + ttl > tmax ? tmax : now + ttl, (uint64_t)need};
-        used += (uint64_t)need;
+        e[0] = RefEntry{id, v, ttl > TMAX - now ? TMAX : now + ttl, need};
+        used += need;
         return true;
     }
     void setLimit(uint64_t l) { while (used > l) { removeAt(n - 1); vf_reach("purged-for-limit"); } limit = l; }
 };
-
-#ifdef VF_THOROUGH
-#define NOPS 5
-#else
-#define NOPS 4
-#endif
 
 static unsigned pick(unsigned n, const char *name) { return (unsigned)vf_concretize(vf_range(0, n - 1, name)); }
 
@@ -104,54 +101,90 @@ static void compare(const Map &m, const Ref &r)
     vf_assert(m.entries() == r.n, "the map stores exactly the reference's entries");
     unsigned i = 0;
     for (auto it = m.cbegin(); it != m.cend() && i < r.n; ++it, ++i)
-        vf_assert(it->key.id == r.e[i].id && it->value.v == r.e[i].v && it->memCounted == r.e[i].mem && (__int128)it->expires == r.e[i].expires,
+        vf_assert(it->key.id == r.e[i].id && it->value.v == r.e[i].v && it->memCounted == r.e[i].mem && it->expires == r.e[i].expires,
                   "traversal: same entries in the same recency order (so only least recently used entries were purged)");
     vf_observe("entries", m.entries());
 }
 
-static void clpSequence(const bool symbolicSizes)
+// what is symbolic and what is case-split differs per entry
+struct Params {
+    bool symbolicSizes;   // key lengths (8 bit), value sizes (8 bit, or 2^64-1 minus 8 bit: overflows the accounting) and capacities (16 bit)
+                          // symbolic; else concrete sizes (entry k accounts 3+5k+8 bytes + overhead) and capacities from a list
+    bool symbolicTime;    // TTL: any 16-bit signed value or INT_MAX; clock advance: any 16-bit value; clock starts at 1000 or up to 65535 s before
+                          // the end of time_t; else no expiry
+    unsigned nkeys, nops;
+};
+
+static uint64_t anyCapacity(const Params &p, const Key *keys, const bool initial)
+{
+    if (p.symbolicSizes) return vf_nondet_u16("capacity");
+    const uint64_t e0 = keys[0].len + OVERHEAD + 8, e1 = keys[1].len + OVERHEAD + 8, e2 = keys[2].len + OVERHEAD + 8;
+    // room for: one small entry but not the two smallest / any two but not all three / everything / (later) nothing / exactly the smallest entry
+    const uint64_t caps[] = {e0 + e1 - 1, e0 + e1 + e2 - 1, UINT64_MAX, 0, e0};
+    return caps[pick(initial ? 3 : 5, "capacity")];
+}
+
+static void clpSequence(const Params p)
 {
     vf_quiet();
-    // per-key lengths and the clock start
     Key keys[NKEYS];
-    for (unsigned k = 0; k < NKEYS; ++k) { keys[k].id = k + 1; keys[k].len = symbolicSizes ? vf_nondet_u32("keyLength") : 3 + 5 * k; }
-    const uint64_t start = vf_nondet_u64("clockStart"); vf_assume(start <= (uint64_t)std::numeric_limits<time_t>::max());
-    squid_curtime = (time_t)start;
-    const uint64_t cap0 = vf_nondet_u64("capacity");
+    for (unsigned k = 0; k < NKEYS; ++k) { keys[k].id = k + 1; keys[k].len = p.symbolicSizes ? vf_nondet_u8("keyLength") : 3 + 5 * k; }
+    squid_curtime = 1000;
+    if (p.symbolicTime && vf_bool("lateStart")) squid_curtime = TMAX - vf_nondet_u16("beforeTheEndOfTime"); // expiry times saturate
+    const uint64_t cap0 = anyCapacity(p, keys, true);
     Map m(cap0);
     Ref r; r.limit = cap0;
     compare(m, r);
-    for (unsigned step = 0; step < NOPS; ++step) {
-        const unsigned op = pick(5, "op");
-        const __int128 now = squid_curtime;
+    for (unsigned step = 0; step < p.nops; ++step) {
+        const bool last = step + 1 == p.nops;
+        // the last operation is one whose effect depends on the recency order (get/del/clock change nothing compare() could see later)
+        const unsigned op = last && !p.symbolicTime ? (pick(2, "op") ? 3 : 0) : pick(p.symbolicTime ? 5 : 4, "op");
+        const time_t now = squid_curtime;
         if (op == 0) { // add
-            const Key &k = keys[pick(NKEYS, "key")];
-            const Val v = {(int)vf_nondet_u32("value"), symbolicSizes ? vf_nondet_u64("valueSize") : (uint64_t)(8 + 32 * pick(2, "valueSize"))};
-            const int ttl = (int)vf_nondet_u32("ttl");
+            const Key &k = keys[pick(p.nkeys, "key")];
+            uint64_t size = 8;
+            if (p.symbolicSizes) { size = vf_nondet_u8("valueSize"); if (vf_bool("hugeValue")) size = UINT64_MAX - size; }
+            const Val v = {(int)vf_nondet_u32("value"), size};
+            int ttl = 1000000;
+            if (p.symbolicTime) ttl = vf_bool("ttlMax") ? std::numeric_limits<int>::max() : (int)(int16_t)vf_nondet_u16("ttl");
             const bool got = m.add(k, v, ttl), want = r.add(k.id, k.len, v.v, v.size, ttl, now);
             vf_assert(got == want, "add() succeeds iff the capacity is not 0, the TTL is not negative and the entry can fit");
-            vf_reach(got ? "added" : "rejected");
+            if (vf_concretize(got)) vf_reach("added"); else vf_reach("rejected");
         } else if (op == 1) { // get
-            const Key &k = keys[pick(NKEYS, "key")];
+            const Key &k = keys[pick(p.nkeys, "key")];
             const Val *got = m.get(k); const RefEntry *want = r.find(k.id, now);
             vf_assert((got != nullptr) == (want != nullptr), "get() finds exactly the fresh entries of the reference");
             if (got && want) vf_assert(got->v == want->v, "get() returns the value added last for the key");
-            vf_reach(got ? "hit" : "miss");
+            if (got) vf_reach("hit"); else vf_reach("miss");
         } else if (op == 2) { // del
-            const Key &k = keys[pick(NKEYS, "key")];
+            const Key &k = keys[pick(p.nkeys, "key")];
             m.del(k); r.del(k.id, now);
         } else if (op == 3) { // capacity change
-            const uint64_t cap = vf_nondet_u64("capacity");
+            const uint64_t cap = anyCapacity(p, keys, false);
             m.setMemLimit(cap); r.setLimit(cap);
             vf_reach("relimit");
         } else { // the clock advances
-            const uint64_t dt = vf_nondet_u32("seconds"); vf_assume((uint64_t)squid_curtime + dt <= (uint64_t)std::numeric_limits<time_t>::max());
-            squid_curtime += (time_t)dt;
+            const time_t dt = vf_nondet_u16("seconds"); vf_assume(dt <= TMAX - squid_curtime);
+            squid_curtime += dt;
         }
         compare(m, r);
     }
     vf_reach("done");
     WITNESS_POINT();
 }
-extern "C" void c51_symbolic(void) { clpSequence(true); }
-extern "C" void c51_sized(void) { clpSequence(false); }
+
+#ifdef VF_THOROUGH
+#define N_LRU 5
+#define N_TTL 5
+#define N_SIZES 4
+#else
+#define N_LRU 4
+#define N_TTL 4
+#define N_SIZES 3
+#endif
+// capacity/LRU: concrete sizes, capacities from a list, no expiry
+extern "C" void c51_lru(void) { clpSequence(Params{false, false, 3, N_LRU}); }
+// lifetime: concrete sizes, symbolic TTLs and clock, two keys
+extern "C" void c51_ttl(void) { clpSequence(Params{false, true, 2, N_TTL}); }
+// accounting: symbolic key lengths, value sizes and capacities, no expiry
+extern "C" void c51_sizes(void) { clpSequence(Params{true, false, 3, N_SIZES}); }
